@@ -21,7 +21,7 @@ WHAT_FOR = {
     "C02": ("init", "serialize"),
     "C16": ("serialize",),
     "C15": ("serialize", "deserialize"),
-    "C19": ("init", "shape"),
+    "C19": ("init", "shape", "deserialize"),
     "C03": ("deserialize",),
 }
 
@@ -42,6 +42,8 @@ def obligation_properties(name, kind, info, fn):
     if fn.endswith(".deserialize"):
         if kind in ("mode-restored", "mode-restored-on-raise"):
             return {"C15"}
+        if kind == "immutable-field":
+            return {"C19"}
         return {"C03"}
     if fn.endswith(".__init__"):
         if kind in ("ctor-length", "ctor-literal"):
